@@ -162,17 +162,17 @@ def handle (op : String) (f : List (List Q)) : String :=
   | "add_disc", [x1, y1, m1, x2, y2, m2] =>
     showFields (unzip3 (Disc.add (mkDisc x1 y1 m1) (mkDisc x2 y2 m2)).e)
   | "pwc_integral_all", [x, y] => showFields [[(Pwc.mk x y).integralAll]]
-  | "pwc_integral", [x, y, [a, b]] => showOpt (((Pwc.mk x y).integral a b).map fun v => [[v]])
+  | "pwc_integral", [x, y, [a, b]] => showOpt (((Pwc.mk x y).integralCode a b).map fun v => [[v]])
   | "pwc_avrg_all", [x, y] => showFields [[(Pwc.mk x y).avrgAll]]
-  | "pwc_avrg", [x, y, [a, b]] => showOpt (((Pwc.mk x y).avrg a b).map fun v => [[v]])
+  | "pwc_avrg", [x, y, [a, b]] => showOpt (((Pwc.mk x y).integralCode a b).map fun v => [[v / (b - a)]])
   | "pwc_avrg_list", [x, y, iv] => showOpt (((Pwc.mk x y).avrgList (pairs iv)).map fun v => [[v]])
   | "pwc_call", [x, y, ts] => showFields [ts.map (Pwc.mk x y).call]
   | "pwc_call_seq", [x, y, ts] => showFields [ts.map (Pwc.mk x y).callSeq1]
   | "pwc_plot", [x, y] => let r := (Pwc.mk x y).plottable; showFields [r.1, r.2]
   | "pwl_integral_all", [x, y1, y2] => showFields [[(Pwl.mk x y1 y2).integralAll]]
-  | "pwl_integral", [x, y1, y2, [a, b]] => showOpt (((Pwl.mk x y1 y2).integral a b).map fun v => [[v]])
+  | "pwl_integral", [x, y1, y2, [a, b]] => showOpt (((Pwl.mk x y1 y2).integralCode a b).map fun v => [[v]])
   | "pwl_avrg_all", [x, y1, y2] => showFields [[(Pwl.mk x y1 y2).avrgAll]]
-  | "pwl_avrg", [x, y1, y2, [a, b]] => showOpt (((Pwl.mk x y1 y2).avrg a b).map fun v => [[v]])
+  | "pwl_avrg", [x, y1, y2, [a, b]] => showOpt (((Pwl.mk x y1 y2).integralCode a b).map fun v => [[v / (b - a)]])
   | "pwl_avrg_list", [x, y1, y2, iv] =>
     showOpt (((Pwl.mk x y1 y2).avrgList (pairs iv)).map fun v => [[v]])
   | "pwl_call", [x, y1, y2, ts] => showFields [ts.map (Pwl.mk x y1 y2).call]
